@@ -66,6 +66,8 @@ class Prog:
             deep = os.path.join(deep, "deep%02d_" % i + "x" * 40)
             i += 1
         os.makedirs(deep, exist_ok=True)
+        with open(os.path.join(deep, "nlv_marker.txt"), "w") as f:      # (file_exists "nlv_marker.txt") is true only here
+            f.write("x\n")
         self.deep = deep
 
     @property
@@ -466,7 +468,9 @@ fn collect(r: Reading, scale: int) -> int {
     let mut acc: int = 0
     let mut fsum: float = 0.0
     let mut xs: array<float> = []
-    let mut ys: array<int> = [0, 0]
+    let mut ys: array<int> = []
+    set ys (array_push ys 0)
+    set ys (array_push ys 0)
 %s%s    if (> fsum 100.0) {
         set acc (+ acc 1)
     }
@@ -487,26 +491,161 @@ shadow collect {
 
 # ---- family: top-level immutable `let` initialised from a builtin that reads the environment of the COMPILER process when
 # the initialiser is evaluated at compile time (cwd, TMPDIR)
-IMPURE_CFGS = ("baseline", "repeat", "cwd-deep", "barename", "tmpdir", "relpath", "all-different")
+IMPURE_CFGS = ("baseline", "repeat", "cwd-deep", "barename", "tmpdir", "relpath", "from-parent", "all-different")
+# source of the environment-dependent value -> a bool expression whose truth differs between the baseline and at least one of
+# IMPURE_CFGS (deep cwd / second TMPDIR / marker file only in the deep cwd), and a string expression
+IMPURE_SOURCES = [
+    ("getcwd", '(str_contains (getcwd) "deep00_")', "(getcwd)"),
+    ("getenv", '(str_contains (getenv "TMPDIR") "second-and-longer")', '(getenv "TMPDIR")'),
+    # (a bare (file_exists ..) as the whole initialiser is "undefined function" for the top-level checker: keep it nested)
+    ("file_exists", '(== (b2i (file_exists "nlv_marker.txt")) 1)', None),
+    ("time", "(> (% (time) 7) 2)", None),       # cannot be steered; a folded clock shows as a difference between repeats
+]
 
 
 def _impure_programs():
+    """Grid {int, float, bool, string, array, struct} constant x {getcwd, getenv, file_exists, time} source; every program
+    uses its constant in an expression, in a condition, as an argument and as a return value."""
     out = []
-    for name, init, typ, use in (
-            ("getcwd-int", "(str_length (getcwd))", "int", "(println N)"),
-            ("getcwd-bool", "(> (str_length (getcwd)) 150)", "bool", "if N {\n        (println 1)\n    }"),
-            ("getenv-int", "(str_length (getenv \"TMPDIR\"))", "int", "(println N)"),
-            ("getcwd-string", "(getcwd)", "string", "(println N)")):
-        text = """let N: %s = %s
+    prelude = """struct Box { n: int, flag: bool }
+
+fn b2i(b: bool) -> int {
+    if b {
+        return 1
+    } else {
+        return 0
+    }
+}
+shadow b2i { assert (== (b2i true) 1) }
+
+fn b2f(b: bool) -> float {
+    if b {
+        return 1.5
+    } else {
+        return 0.25
+    }
+}
+shadow b2f { assert (> (b2f true) 1.0) }
+
+fn show_int(n: int) -> int {
+    (println n)
+    return n
+}
+shadow show_int { assert (== (show_int 1) 1) }
+"""
+    for sname, bexpr, sexpr in IMPURE_SOURCES:
+        iexpr = "(str_length %s)" % sexpr if sexpr else "(b2i %s)" % bexpr
+        cells = {
+            "int": ("let K: int = %s" % iexpr, "K", "(> K 40)", "int"),
+            "float": ("let K: float = (b2f %s)" % bexpr, "(cast_int K)", "(> K 1.0)", "float"),
+            "bool": ("let K: bool = %s" % bexpr, "(b2i K)", "K", "bool"),
+            "string": ("let K: string = %s" % (sexpr or '(int_to_string (b2i %s))' % bexpr), "(str_length K)",
+                       "(> (str_length K) 40)", "string"),
+            "array": ("let K: array<int> = [%s, 7]" % iexpr, "(at K 0)", "(> (at K 0) 40)", "array<int>"),
+            "struct": ("let K: Box = Box { n: %s, flag: %s }" % (iexpr, bexpr), "K.n", "K.flag", "Box"),
+        }
+        for tname, (decl, as_int, as_cond, ctype) in cells.items():
+            text = prelude + """
+%(decl)s
+
+fn use_in_expression() -> int {
+    return (+ %(as_int)s 1)
+}
+
+fn use_in_condition() -> string {
+    if %(as_cond)s {
+        return "yes"
+    } else {
+        return "no"
+    }
+}
+
+fn use_as_argument() -> int {
+    return (show_int %(as_int)s)
+}
+
+fn use_returned() -> %(ctype)s {
+    return K
+}
 
 fn main() -> int {
-    %s
+    (println (use_in_expression))
+    (println (use_in_condition))
+    (println (use_as_argument))
+    let r: %(ctype)s = (use_returned)
     return 0
 }
-shadow main { assert (== (main) 0) }
-""" % (typ, init, use)
-        out.append(Prog("impure-const", "impure-const-" + name, {"main.nano": text.encode()}, "main.nano",
-                        note="top-level immutable let = %s" % init, cfg_names=IMPURE_CFGS))
+""" % dict(decl=decl, as_int=as_int, as_cond=as_cond, ctype=ctype)
+            out.append(Prog("impure-const", "impure-const-%s-%s" % (sname, tname), {"main.nano": text.encode()}, "main.nano",
+                            note=decl, cfg_names=IMPURE_CFGS))
+    return out
+
+
+# ---- family: projects in which the SAME module path exists in more than one search root (stdlib/, modules/, the project
+# root itself, next to the importer) with distinguishable contents.  Which file an import resolves to must not depend on
+# the working directory or on how the input path is spelled.
+PROJECT_CFGS = ("baseline", "repeat", "cwd-deep", "barename", "dot-slash", "from-parent", "from-project-root", "relpath",
+                "tmpdir", "all-different")
+
+
+def _greeting(where, n):
+    return ("""pub fn greeting() -> string {
+    return "hello from %s"
+}
+pub fn magic() -> int {
+    return %d
+}
+""" % (where, n)).encode()
+
+
+def _project_programs(rng):
+    out = []
+    app = """import "%s"
+
+fn main() -> int {
+    (println (greeting))
+    (println (magic))
+    return 0
+}
+"""
+    base = rng.randrange(10, 90)
+    shapes = [
+        # (name, main file, import string, {file: content})
+        ("root-app", "app.nano", "std/greeting.nano",
+         {"stdlib/std/greeting.nano": ("stdlib", 1), "modules/std/greeting.nano": ("modules", 2)}),
+        ("examples-app", "examples/app.nano", "std/greeting.nano",
+         {"stdlib/std/greeting.nano": ("stdlib", 1), "modules/std/greeting.nano": ("modules", 2)}),
+        ("deep-app-three-roots", "apps/tools/app.nano", "std/greeting.nano",
+         {"stdlib/std/greeting.nano": ("stdlib", 1), "modules/std/greeting.nano": ("modules", 2),
+          "std/greeting.nano": ("project root", 3)}),
+        ("deep3-app", "apps/a/b/app.nano", "std/greeting.nano",
+         {"stdlib/std/greeting.nano": ("stdlib", 1), "modules/std/greeting.nano": ("modules", 2)}),
+        ("modules-prefix", "app.nano", "modules/util/greeting.nano",
+         {"stdlib/modules/util/greeting.nano": ("stdlib/modules", 1), "modules/modules/util/greeting.nano": ("modules/modules", 2),
+          "modules/util/greeting.nano": ("modules", 3)}),
+        ("sibling-vs-roots", "apps/app.nano", "std/greeting.nano",
+         {"apps/std/greeting.nano": ("next to the importer", 4), "stdlib/std/greeting.nano": ("stdlib", 1),
+          "modules/std/greeting.nano": ("modules", 2)}),
+        ("examples-marker-only", "examples/app.nano", "std/greeting.nano",
+         {"stdlib/std/greeting.nano": ("stdlib", 1), "std/greeting.nano": ("project root", 3)}),
+        ("modules-and-root", "app.nano", "std/greeting.nano",
+         {"modules/std/greeting.nano": ("modules", 2), "std/greeting.nano": ("project root", 3),
+          "modules/.keep.nano": None}),
+    ]
+    for name, mainf, imp, mods in shapes:
+        files = {mainf: (app % imp).encode()}
+        for path, spec in mods.items():
+            files[path] = b"# keeps the directory\n" if spec is None else _greeting(spec[0], base + spec[1])
+        out.append(Prog("project", "project-" + name, files, mainf, note="import %s; copies in %s" % (
+            imp, ", ".join(sorted(k for k, v in mods.items() if v))), cfg_names=PROJECT_CFGS))
+    # transitive: the duplicated module is imported by a module
+    files = {"app.nano": b'import "std/front.nano"\n\nfn main() -> int {\n    (println (front))\n    return 0\n}\n',
+             "stdlib/std/front.nano": b'import "std/greeting.nano"\npub fn front() -> string {\n    return (greeting)\n}\n',
+             "stdlib/std/greeting.nano": _greeting("stdlib", base + 1),
+             "modules/std/greeting.nano": _greeting("modules", base + 2),
+             "modules/other.nano": b"# root marker\n"}
+    out.append(Prog("project", "project-transitive", files, "app.nano", note="std/front.nano imports the duplicated std/greeting.nano",
+                    cfg_names=PROJECT_CFGS))
     return out
 
 
@@ -694,6 +833,13 @@ class Cfg:
         self.pre = pre
 
 
+def _cwd(prog, cfg):
+    """working directory of a configuration: "c" short scratch dir | "deep" >200 characters | "src" the directory of the
+    main file | "proj" the top of the program's source tree | "root" the parent of that tree"""
+    return {"c": os.path.join(prog.root, "c"), "deep": prog.deep, "src": os.path.dirname(prog.input),
+            "proj": prog.src, "root": prog.root}[cfg.cwd]
+
+
 def _unrelated_env(rng):
     e = {}
     while len(e) < 30:
@@ -714,6 +860,9 @@ def _configs(rng):
         Cfg("env30", env=env30),
         Cfg("relpath", inp="rel", tool="rel"),
         Cfg("barename", cwd="src", inp="rel"),
+        Cfg("dot-slash", cwd="src", inp="dotrel"),       # ./main.nano
+        Cfg("from-parent", cwd="root", inp="rel"),       # src/<...>/main.nano from the directory above the source tree
+        Cfg("from-project-root", cwd="proj", inp="rel"), # <...>/main.nano from the top of the source tree
         Cfg("tool-via-PATH", tool="path"),
         Cfg("aslr-off", prefix=("setarch", "-R")),
         Cfg("perturb-01", env={"MALLOC_PERTURB_": "1"}),
@@ -834,7 +983,7 @@ shadow nlv_hist_extra_%d { assert (== (nlv_hist_extra_%d 1) %d) }
 
 
 def _compile(flv, prog, cfg, tool, valgrind=False, base_len=0, flavor_san=False):
-    cwd = {"c": os.path.join(prog.root, "c"), "deep": prog.deep, "src": prog.src}[cfg.cwd]
+    cwd = _cwd(prog, cfg)
     tmp = os.path.join(prog.root, cfg.tmp)
     outdir = os.path.join(prog.root, "o", cfg.name + ("-vg" if valgrind else "") + ("-asan" if flavor_san else ""), tool)
     os.makedirs(outdir, exist_ok=True)
@@ -848,6 +997,8 @@ def _compile(flv, prog, cfg, tool, valgrind=False, base_len=0, flavor_san=False)
     else:
         exe_arg = exe
     inp = prog.input if cfg.inp == "abs" else os.path.relpath(prog.input, cwd)
+    if cfg.inp == "dotrel" and not inp.startswith("."):
+        inp = "./" + inp
     env.update(cfg.env)
     if cfg.mtime is not None:
         for rel in prog.files:
@@ -979,7 +1130,7 @@ def _line_class(line):
 
 
 GENC_CAUSES = ("module-path-embedded", "toplevel-let-folded-at-compile-time")
-IMPURE_BUILTINS = ("getcwd", "getenv")
+IMPURE_BUILTINS = ("getcwd", "getenv", "file_exists", "time")
 TOPLEVEL_LET = re.compile(rb"(?m)^let\s+(?!mut\b)\w+\s*:\s*[\w<>]+\s*=\s*(.*)$")
 NUM_LITERAL = re.compile(r"(?<![\w.])-?\d+(?:\.\d+)?(?:e[+-]?\d+)?(?:LL)?(?![\w.])|\b(?:true|false)\b")
 
@@ -1026,6 +1177,9 @@ def classify_genc_diff(a, b, same_file, impure=None):
         if ok:
             modpath += 1
             continue
+        if mx and my and mx.group(1) == my.group(1):
+            return ("import-resolved-to-a-different-file", "line %d: module %s was loaded from different files:\n< %s\n> %s" % (
+                i + 1, mx.group(1), mx.group(2), my.group(2)))
         if impure and '"' not in x and NUM_LITERAL.sub("N", x) == NUM_LITERAL.sub("N", y):
             folded.append((i + 1, x.strip(), y.strip()))     # the lines differ only in a numeric / boolean literal
             continue
@@ -1327,7 +1481,8 @@ def run(ctx):
 
         # phase 3: the two constructed families (reduced configuration sets, no memcheck: asan names a cause when they differ)
         fam = _sweep_programs(ctx.n(40, 70), SWEEP_CFGS if quick else SWEEP_CFGS_THOROUGH,
-                              ("first",) if quick else ("first", "last")) + _impure_programs()
+                              ("first",) if quick else ("first", "last")) + _impure_programs() + \
+            _project_programs(ctx.rng("projects"))
         results = results + phase(fam, 0)
 
         # ---- verdicts -------------------------------------------------------------------------------------
@@ -1343,6 +1498,7 @@ def run(ctx):
         crashes = {}
         diag_kinds = {}
         vg_example = {}
+        fam_acc = {}
 
         def same_file_fn(prog, cwd_a, cwd_b):
             def same(pa, pb):
@@ -1363,7 +1519,7 @@ def run(ctx):
             return is_direct
 
         def cwd_of(prog, cfg):
-            return {"c": os.path.join(prog.root, "c"), "deep": prog.deep, "src": prog.src}[cfg.cwd]
+            return _cwd(prog, cfg)
 
         asan_cache = {}
         asan_stats = {"diagnoses": 0, "reports": 0}
@@ -1417,6 +1573,14 @@ def run(ctx):
                 base = obs[("baseline", tool)]
                 acc = base.status == 0 and base.sha is not None
                 st[("accepted_" if acc else "rejected_") + tool] += 1
+                if prog.kind in ("impure-const", "project", "sweep"):
+                    fa = fam_acc.setdefault(prog.kind, {"nvm": 0, "genC": 0, "programs": 0, "rejected": []})
+                    if tool == TOOLS[0]:
+                        fa["programs"] += 1
+                    if acc:
+                        fa[tool] += 1
+                    elif len(fa["rejected"]) < 12:
+                        fa["rejected"].append("%s:%s" % (prog.name, tool))
                 if not acc:
                     for dm in re.finditer(r"(?m)^(?:-- ([A-Z][A-Z ]+) -|((?:Error|Warning|error|Lexing|Parsing)[^:\n]{0,40})[:\n])", base.diag):
                         dk = dm.group(1) or re.sub(r"\d+", "N", dm.group(2)).strip()
@@ -1447,9 +1611,20 @@ def run(ctx):
                         f = dict(common)
                         f["diag_baseline.txt"] = base.raw
                         f["diag_%s.txt" % cfg.name] = o.raw
-                        viol("status|%s|%s|%s->%s" % (tool, cfg.name, base.status, o.status),
-                             "%s: exit status of %s differs between baseline (%s) and configuration '%s' (%s)"
-                             % (prog.name, tool, base.status, cfg.name, o.status), f, prog, tool, cfg)
+                        skey = "status|%s|%s|%s->%s" % (tool, cfg.name, base.status, o.status)
+                        cause = False
+                        um = re.search(r"Module file '([^']+)' not found|Failed to resolve module path '([^']+)'", o.raw)
+                        if um and base.status == 0 and cfg.inp != "abs":
+                            # an import that resolves with the absolute spelling does not with this relative one: name the
+                            # cause by how far above the working directory the top of the source tree is
+                            up = os.path.relpath(prog.src, cwd_of(prog, cfg)).split("/")
+                            levels = len(up) if all(u == ".." for u in up) else 0
+                            skey = "resolve|import-not-found-with-relative-input|source-tree-top-%s-levels-above-cwd" % (
+                                "3+" if levels >= 3 else str(levels))
+                            cause = True
+                        viol(skey, "%s: exit status of %s differs between baseline (%s) and configuration '%s' (%s)%s"
+                             % (prog.name, tool, base.status, cfg.name, o.status,
+                                ": " + um.group(0) if um else ""), f, prog, tool, cfg, path_cause=cause)
                     elif base.sha != o.sha:
                         equal = False
                         f = dict(common)
@@ -1568,6 +1743,12 @@ def run(ctx):
                     "too few accepted programs (nvm %d, genC %d)" % (st["accepted_nvm"], st["accepted_genC"]))
         ctx.require(st["rejected_nvm"] + st["rejected_genC"] >= ctx.n(6, 60), "too few ill-formed programs with diagnostics")
         ctx.require(kinds.get("multi", 0) >= 3, "too few multi-module programs")
+        # the constructed families only mean something when the compilers accept them
+        for fk, tool, frac in (("project", "nvm", 1.0), ("project", "genC", 1.0), ("impure-const", "genC", 0.75),
+                               ("sweep", "genC", 0.9), ("sweep", "nvm", 0.9)):
+            fa = fam_acc.get(fk, {"programs": 0, tool: 0, "rejected": []})
+            ctx.require(fa["programs"] > 0 and fa[tool] >= frac * fa["programs"],
+                        "family '%s': only %d of %d programs accepted by %s (%s)" % (fk, fa[tool], fa["programs"], tool, fa["rejected"][:6]))
         ctx.require(len(diag_kinds) >= ctx.n(6, 10), "too few distinct kinds of diagnostics observed (%s)" % sorted(diag_kinds))
         ctx.require(st["memcheck_runs"] - st["memcheck_inconclusive"] >= ctx.n(40, 400),
                     "too few conclusive memcheck runs (%d of %d)" % (st["memcheck_runs"] - st["memcheck_inconclusive"], st["memcheck_runs"]))
@@ -1587,6 +1768,7 @@ def run(ctx):
             "per_dimension": {k: {"pairs": v["pairs"], "equal": v["equal"], "programs": len(v["programs"])} for k, v in sorted(per_dim.items())},
             "counts": st,
             "baseline_crashes": crashes,
+            "family_acceptance": fam_acc,
             "diagnostic_kinds_of_rejected_programs": dict(sorted(diag_kinds.items(), key=lambda kv: -kv[1])[:40]),
             "memcheck_error_kinds": vg_kinds,
             "memcheck_error_sites": dict(sorted(vg_sites.items(), key=lambda kv: -kv[1])[:25]),
